@@ -4,10 +4,14 @@
             specification of five functions of the shared Date model ([add_days_ok], [date_diff_ok],
             [succ_ok], [pred_ok], [date_ord_ok]: Section hypotheses, explicit premises of the theorems);
             the time-of-day part (overflowing_add_signed, NaiveTime::signed_duration_since on non-leap
-            values) and the calendar-spec facts are proved here. *)
+            values) and the calendar-spec facts are proved here.
+    Part 3: the five specifications hold for Model/Date.v (from the shared calendar lemmas of
+            Proofs/Date.v / Proofs/C08*.v: add_days_spec, succ/pred_opt_spec, order_spec,
+            signed_duration_since_spec).  Part 4: the unconditional theorems. *)
 From Coq Require Import ZArith List Bool Lia ZifyBool.
 From V Require Import Base.Int Base.IO Base.IntLemmas Spec.Gregorian Model.TimeDelta Model.DateTime Model.C03 Proofs.C06.
 From V Require Model.Date Model.Time.
+From V Require Proofs.Date.
 Import ListNotations.
 Open Scope Z_scope.
 Ltac Zify.zify_post_hook ::= Z.to_euclidean_division_equations.
@@ -756,3 +760,126 @@ Lemma range_ends_reachable :
   inst NDT_MAX = NS_MAX /\ inst NDT_MIN = NS_MIN /\
   nvalid NDT_MAX /\ nvalid NDT_MIN /\ valid ns1.
 Proof. vm_compute. repeat split; congruence. Qed.
+
+(** * Part 3: the Date model satisfies the five specifications (from the shared calendar lemmas of
+    Proofs/Date.v and Proofs/C08*.v, stated over [repr y o d]) *)
+Lemma year_in_range_i32 y : year_in_range y = true -> in_i32 y = true.
+Proof. unfold year_in_range, MIN_YEAR, MAX_YEAR. solve_in. Qed.
+Lemma valid_yo_u32 y o : valid_yo y o = true -> in_u32 o = true.
+Proof. unfold valid_yo, days_in_year. destruct (is_leap y); solve_in. Qed.
+
+Lemma vdate_repr d : vdate d <-> C08Sweeps.repr (Date.d_year d) (Date.d_ordinal d) d.
+Proof.
+  split.
+  - intros [Hy [Ho E]]. split; [exact Hy|]. split; [exact Ho|].
+    rewrite C08Date.from_yo_opt_spec in E by (eauto using year_in_range_i32, valid_yo_u32).
+    rewrite Hy, Ho in E. unfold C08Date.date_if in E. cbn [andb] in E. injection E as E'. symmetry. exact E'.
+  - intros H. pose proof H as [Hy [Ho E]]. split; [exact Hy|]. split; [exact Ho|].
+    rewrite C08Date.from_yo_opt_spec by (eauto using year_in_range_i32, valid_yo_u32).
+    rewrite Hy, Ho. unfold C08Date.date_if. cbn [andb]. rewrite <- E. reflexivity.
+Qed.
+Lemma repr_vdate y o d : C08Sweeps.repr y o d -> vdate d /\ dn d = dn_of_yo y o.
+Proof.
+  intros H. pose proof (C08Date.repr_acc y o d H) as A.
+  destruct (md_of_ordinal (is_leap y) o). destruct A as [Ey [Eo _]].
+  split; [apply (proj2 (vdate_repr d)); rewrite Ey, Eo; exact H|]. unfold dn. rewrite Ey, Eo. reflexivity.
+Qed.
+Lemma date_of_dn_vdate n : dn_in_range n = true ->
+  vdate (C08AddDays.date_of_dn n) /\ dn (C08AddDays.date_of_dn n) = n.
+Proof.
+  intros Hn. pose proof (Proofs.Date.date_of_dn_repr n Hn) as H.
+  destruct (repr_vdate _ _ _ H) as [V D]. split; [exact V|]. rewrite D.
+  destruct (C08Days.yo_of_dn_valid n) as [_ E]. exact E.
+Qed.
+
+Lemma add_days_holds : add_days_ok.
+Proof.
+  intros d n Hd Hn. apply (proj1 (vdate_repr d)) in Hd.
+  rewrite (C08AddDays.add_days_spec _ _ _ _ Hd Hn). fold (dn d).
+  eexists. split; [reflexivity|].
+  destruct (dn_in_range (dn d + n)) eqn:E; cbn [C08Date.date_if].
+  - apply date_of_dn_vdate. exact E.
+  - reflexivity.
+Qed.
+Lemma date_diff_holds : date_diff_ok.
+Proof.
+  intros a b Ha Hb. apply (proj1 (vdate_repr a)) in Ha. apply (proj1 (vdate_repr b)) in Hb.
+  exact (Proofs.Date.signed_duration_since_spec _ _ _ _ _ _ Ha Hb).
+Qed.
+Lemma succ_holds : succ_ok.
+Proof.
+  intros d Hd. pose proof (vdate_range d Hd) as Rg. apply (proj1 (vdate_repr d)) in Hd.
+  rewrite (Proofs.Date.succ_opt_spec _ _ _ Hd). fold (dn d).
+  eexists. split; [reflexivity|].
+  destruct (dn_in_range (dn d + 1)) eqn:E; cbn [C08Date.date_if].
+  - apply date_of_dn_vdate. exact E.
+  - unfold dn_in_range in E. lia.
+Qed.
+Lemma pred_holds : pred_ok.
+Proof.
+  intros d Hd. pose proof (vdate_range d Hd) as Rg. apply (proj1 (vdate_repr d)) in Hd.
+  rewrite (Proofs.Date.pred_opt_spec _ _ _ Hd). fold (dn d).
+  eexists. split; [reflexivity|].
+  destruct (dn_in_range (dn d - 1)) eqn:E; cbn [C08Date.date_if].
+  - apply date_of_dn_vdate. exact E.
+  - unfold dn_in_range in E. lia.
+Qed.
+Lemma date_ord_holds : date_ord_ok.
+Proof.
+  intros a b Ha Hb. apply (proj1 (vdate_repr a)) in Ha. apply (proj1 (vdate_repr b)) in Hb.
+  exact (Proofs.Date.order_spec _ _ _ _ _ _ Ha Hb).
+Qed.
+
+(** the public-constructor reading of [vdate] *)
+Lemma vdate_constructed d :
+  vdate d <-> exists y o, year_in_range y = true /\ valid_yo y o = true /\ Date.from_yo_opt y o = Val (Some d).
+Proof.
+  split.
+  - intros [Hy [Ho E]]. eauto.
+  - intros [y [o [Hy [Ho E]]]].
+    rewrite C08Date.from_yo_opt_spec in E by (eauto using year_in_range_i32, valid_yo_u32).
+    rewrite Hy, Ho in E. unfold C08Date.date_if in E. cbn [andb] in E. injection E as E'.
+    apply (repr_vdate y o d). split; [exact Hy|]. split; [exact Ho|]. symmetry. exact E'.
+Qed.
+
+(** * Part 4: the unconditional theorems *)
+Lemma ndt_add_exact_u a d : nvalid a -> valid d ->
+  exists r, ndt_checked_add_signed a d = Val r /\ ndt_res (inst a + ns d) r.
+Proof. exact (ndt_add_exact add_days_holds a d). Qed.
+Lemma ndt_sub_exact_u a d : nvalid a -> valid d ->
+  exists r, ndt_checked_sub_signed a d = Val r /\ ndt_res (inst a - ns d) r.
+Proof. exact (ndt_sub_exact add_days_holds a d). Qed.
+Lemma ndt_diff_exact_u a b : nvalid a -> nvalid b ->
+  exists d, ndt_signed_duration_since a b = Val d /\ valid d /\ ns d = inst a - inst b.
+Proof. exact (ndt_diff_exact date_diff_holds a b). Qed.
+Lemma ndt_roundtrip_u a b : nvalid a -> nvalid b ->
+  exists d, ndt_signed_duration_since a b = Val d /\ ndt_checked_add_signed b d = Val (Some a).
+Proof. exact (ndt_roundtrip add_days_holds date_diff_holds a b). Qed.
+Lemma ndt_order_u a b : nvalid a -> nvalid b ->
+  exists d, ndt_signed_duration_since a b = Val d /\
+    td_cmp d (mk_td 0 0) = cmpZ (inst a) (inst b) /\ ndt_cmp a b = cmpZ (inst a) (inst b).
+Proof. exact (ndt_order date_diff_holds date_ord_holds a b). Qed.
+Lemma date_add_days_exact_u d n : vdate d -> in_u64 n = true ->
+  exists r, Date.checked_add_days d n = Val r /\ date_res d (dn d + n) r.
+Proof. exact (date_add_days_exact add_days_holds d n). Qed.
+Lemma date_sub_days_exact_u d n : vdate d -> in_u64 n = true ->
+  exists r, Date.checked_sub_days d n = Val r /\ date_res d (dn d - n) r.
+Proof. exact (date_sub_days_exact add_days_holds d n). Qed.
+Lemma date_add_signed_trunc_u d x : vdate d -> valid x ->
+  exists r, Date.checked_add_signed d x = Val r /\ date_res d (dn d + Z.quot (ns x) DAYNS) r.
+Proof. exact (date_add_signed_trunc add_days_holds d x). Qed.
+Lemma date_sub_signed_trunc_u d x : vdate d -> valid x ->
+  exists r, Date.checked_sub_signed d x = Val r /\ date_res d (dn d - Z.quot (ns x) DAYNS) r.
+Proof. exact (date_sub_signed_trunc add_days_holds d x). Qed.
+Lemma ndt_days_exact_u a n : nvalid a -> in_u64 n = true ->
+  (exists r, ndt_checked_add_days a n = Val r /\ ndt_res (inst a + n * DAYNS) r) /\
+  (exists r, ndt_checked_sub_days a n = Val r /\ ndt_res (inst a - n * DAYNS) r).
+Proof. exact (ndt_days_exact add_days_holds a n). Qed.
+Lemma iter_days_forward_u : iter_forward_statement days_next days_size_hint 1.
+Proof. exact (iter_days_forward date_diff_holds succ_holds). Qed.
+Lemma iter_weeks_forward_u : iter_forward_statement weeks_next weeks_size_hint 7.
+Proof. exact (iter_weeks_forward add_days_holds date_diff_holds). Qed.
+Lemma iter_days_backward_u : iter_backward_statement days_next_back 1.
+Proof. exact (iter_days_backward pred_holds). Qed.
+Lemma iter_weeks_backward_u : iter_backward_statement weeks_next_back 7.
+Proof. exact (iter_weeks_backward add_days_holds). Qed.
